@@ -44,9 +44,9 @@ def gen_history(rnd, nact):
     acts += [("add", 0, 0.0, rnd.randrange(1 << 30)), ("add", 0, 0.5, rnd.randrange(1 << 30))]
     for _ in range(nact):
         r = rnd.random()
-        if r < 0.03:
+        if r < 0.05:
             # many new statements in one file (a count threshold in how IDs are reserved would only show here)
-            acts.append(("add_many", rnd.randrange(0, 4), rnd.choice([129, 150, 257, 300]), rnd.randrange(1 << 30)))
+            acts.append(("add_many", rnd.randrange(0, 4), rnd.choice([129, 150, 257, 300, 12, 20, 25, 95]), rnd.randrange(1 << 30)))
         elif r < 0.22:
             acts.append(("add", rnd.randrange(0, 4), rnd.random(), rnd.randrange(1 << 30)))
         elif r < 0.36:
